@@ -2,6 +2,7 @@
 Lemmas for XlModel.Crypt (C13): the agile segment loop, UTF-16LE injectivity.
 -/
 import XlModel.Crypt
+import Mathlib.Tactic.SplitIfs
 
 namespace XlModel.Crypt
 open XlModel.Facts.C13
@@ -45,6 +46,198 @@ theorem specSegs_eq (N : Nat) :
   unfold specSegs
   rw [List.range_eq_range']
   rfl
+
+/-! ### agile data flow -/
+
+/-- what the abstract CBC cipher is assumed to satisfy: for every IV index it is a length-preserving
+bijection on block-aligned messages -/
+def Cbc.Lawful (c : Cbc) : Prop :=
+  ∀ (i : Nat) (x : List Nat), x.length % 16 = 0 → c.dec i (c.enc i x) = x ∧ (c.enc i x).length = x.length
+
+theorem pad16l_length_mod (x : List Nat) : (pad16l x).length % 16 = 0 := by
+  unfold pad16l; simp only [List.length_append, List.length_replicate]; omega
+
+theorem pad16l_aligned (x : List Nat) (h : x.length % 16 = 0) : pad16l x = x := by
+  unfold pad16l; rw [h]; simp
+
+theorem pad16l_length_le (x : List Nat) (h : x.length ≤ 4096) : (pad16l x).length ≤ 4096 := by
+  unfold pad16l; simp only [List.length_append, List.length_replicate]; omega
+
+theorem pad16l_split (x : List Nat) (h : 4096 < x.length) : x.take 4096 ++ pad16l (x.drop 4096) = pad16l x := by
+  unfold pad16l
+  rw [← List.append_assoc, List.take_append_drop]
+  congr 2
+  simp only [List.length_drop]; omega
+
+/-- decrypting what the format's encryptor produced gives the plaintext back, zero padded to the block:
+4096-byte segments line up on both sides because 4096 is a multiple of the block size -/
+theorem agileDec_enc (c : Cbc) (hc : c.Lawful) : ∀ (f : Nat) (i : Nat) (plain : List Nat), plain.length ≤ f →
+    ∀ f2, (agileEncData c f i plain).length ≤ f2 →
+    agileDecData c f2 i (agileEncData c f i plain) = pad16l plain := by
+  intro f
+  induction f with
+  | zero =>
+    intro i plain h f2 _
+    have : plain = [] := List.eq_nil_of_length_eq_zero (by omega)
+    subst this
+    cases f2 <;> simp [agileEncData, agileDecData, pad16l]
+  | succ n ih =>
+    intro i plain h f2 h2
+    by_cases he : plain = []
+    · subst he; cases f2 <;> simp [agileEncData, agileDecData, pad16l]
+    · have hne : plain.isEmpty = false := by simpa using he
+      have hpos : 0 < plain.length := List.length_pos_iff.mpr he
+      have hE : agileEncData c (n + 1) i plain = c.enc i (pad16l (plain.take 4096))
+          ++ agileEncData c n (i + 1) (plain.drop 4096) := by
+        rw [agileEncData]; simp only [hne, Bool.false_eq_true, if_false, packageEncryptionChunkSize]
+      obtain ⟨hd, hl⟩ := hc i (pad16l (plain.take 4096)) (pad16l_length_mod _)
+      rw [hE] at h2 ⊢
+      have hE1pos : 0 < (c.enc i (pad16l (plain.take 4096))).length := by
+        rw [hl]; unfold pad16l; simp only [List.length_append, List.length_take]; omega
+      cases f2 with
+      | zero => simp only [List.length_append] at h2; omega
+      | succ m =>
+        rw [agileDecData]
+        have hne2 : (c.enc i (pad16l (plain.take 4096)) ++ agileEncData c n (i + 1) (plain.drop 4096)).isEmpty = false := by
+          rw [List.isEmpty_eq_false_iff]; intro hh
+          have := congrArg List.length hh
+          simp only [List.length_append, List.length_nil] at this; omega
+        simp only [hne2, Bool.false_eq_true, if_false, packageEncryptionChunkSize]
+        by_cases hbig : 4096 < plain.length
+        · -- a full segment followed by more
+          have ht : (plain.take 4096).length = 4096 := by simp only [List.length_take]; omega
+          have hp : pad16l (plain.take 4096) = plain.take 4096 := pad16l_aligned _ (by rw [ht])
+          rw [hp] at hd hl ⊢
+          rw [ht] at hl
+          rw [List.take_left' hl, List.drop_left' hl, pad16l_aligned _ (by rw [hl]), hd]
+          rw [ih (i + 1) (plain.drop 4096) (by simp only [List.length_drop]; omega) m
+            (by simp only [List.length_append, hl] at h2; omega)]
+          exact pad16l_split plain hbig
+        · -- the last segment
+          have hd0 : plain.drop 4096 = [] := List.drop_eq_nil_of_le (by omega)
+          have ht : plain.take 4096 = plain := List.take_of_length_le (by omega)
+          rw [ht] at hd hl
+          rw [hd0, ht]
+          have hnil : agileEncData c n (i + 1) [] = [] := by cases n <;> simp [agileEncData]
+          rw [hnil, List.append_nil]
+          have hle : (c.enc i (pad16l plain)).length ≤ 4096 := by rw [hl]; exact pad16l_length_le _ (by omega)
+          rw [List.take_of_length_le hle, List.drop_eq_nil_of_le hle,
+            pad16l_aligned _ (by rw [hl]; exact pad16l_length_mod _), hd]
+          have : agileDecData c m (i + 1) [] = [] := by cases m <;> simp [agileDecData]
+          rw [this, List.append_nil]
+
+/-- the recursive reading of the data flow is the segment loop: chunk `k` is `input[8+4096k : 8+min(4096(k+1),N)]` -/
+theorem agileDecData_eq_segs (c : Cbc) (pre data : List Nat) (hpre : pre.length = 8) : ∀ d k f,
+    k + d = (data.length + (packageEncryptionChunkSize - 1)) / packageEncryptionChunkSize → d ≤ f →
+    agileDecData c f k (data.drop (packageEncryptionChunkSize * k))
+      = decBySegs c (pre ++ data) ((List.range' k d).map (segOf data.length)) := by
+  intro d
+  induction d with
+  | zero =>
+    intro k f hk _
+    simp only [packageEncryptionChunkSize] at *
+    have : data.drop (4096 * k) = [] := List.drop_eq_nil_of_le (by omega)
+    rw [this]
+    cases f <;> simp [agileDecData, decBySegs]
+  | succ m ih =>
+    intro k f hk hf
+    obtain ⟨g, rfl⟩ : ∃ g, f = g + 1 := ⟨f - 1, by omega⟩
+    have hrec := ih (k + 1) g (by omega) (by omega)
+    simp only [packageEncryptionChunkSize, packageOffset] at *
+    have hlt : 4096 * k < data.length := by omega
+    have hne : (data.drop (4096 * k)).isEmpty = false := by
+      rw [List.isEmpty_eq_false_iff]; intro hh
+      have := congrArg List.length hh
+      simp only [List.length_drop, List.length_nil] at this; omega
+    rw [agileDecData]
+    simp only [hne, Bool.false_eq_true, if_false, packageEncryptionChunkSize, List.drop_drop]
+    have e : 4096 * k + 4096 = 4096 * (k + 1) := by omega
+    rw [e, hrec]
+    simp only [List.range'_succ, List.map_cons, decBySegs, segOf, packageEncryptionChunkSize, packageOffset]
+    congr 3
+    -- the chunk
+    have hdrop : (pre ++ data).drop (8 + 4096 * k) = data.drop (4096 * k) := by
+      rw [← hpre, List.drop_append]
+      rw [List.drop_eq_nil_of_le (by omega), List.nil_append]
+      congr 1; omega
+    rw [hdrop]
+    by_cases hfull : 4096 * (k + 1) ≤ data.length
+    · have : 8 + min (4096 * (k + 1)) data.length - (8 + 4096 * k) = 4096 := by omega
+      rw [this]
+    · have hlen : (data.drop (4096 * k)).length ≤ 8 + min (4096 * (k + 1)) data.length - (8 + 4096 * k) := by
+        simp only [List.length_drop]; omega
+      rw [List.take_of_length_le hlen, List.take_of_length_le (by simp only [List.length_drop]; omega)]
+
+/-! ### standard encryption guards -/
+
+macro "sd_consts" : tactic => `(tactic|
+  simp only [sdInfoMin, sdPkgMin, sdHsLo, sdHsHi, sdHdrMin, sdHdrBase, sdBlockLo, sdBlockLo2, sdAlgLo, sdAlgHi,
+    sdKeyLo, sdKeyHi, sdResLo, sdResHi, sdCspLo, sdRestLo, sdVerifierRC4, sdVerifierAES, svSaltSizeHi, svSaltLo,
+    svSaltHi, svVerLo, svVerHi, svHsLo, svHsHi, svHashLoRC4, svHashHiRC4, svHashLoAES, svHashHiAES, decOffset,
+    decBlock, sliceOK, verifierSlicesOK, Bool.and_eq_true, decide_eq_true_eq, Bool.not_eq_true] at *)
+
+theorem verifierSlices_of_min (alg len : Nat) (h : verifierMin alg ≤ len) : verifierSlicesOK alg len = true := by
+  unfold verifierMin at h
+  unfold verifierSlicesOK
+  by_cases ha : alg = 0
+  · simp only [ha, if_true] at h ⊢; sd_consts; omega
+  · simp only [ha, if_false] at h ⊢; sd_consts; omega
+
+/-- no slice expression of `standardDecrypt` / `standardEncryptionVerifier` can be out of range once the
+guards in front of it have passed — for every EncryptionInfo content and every package length -/
+theorem guardsCore_no_panic (L major minor hs algId keyBits pkgLen : Nat) :
+    guardsCore L major minor hs algId keyBits pkgLen ≠ .panic := by
+  intro h
+  unfold guardsCore at h
+  by_cases c1 : major = 4 ∧ minor = 4
+  · rw [if_pos c1] at h; cases h
+  rw [if_neg c1] at h
+  by_cases c2 : ¬ ((2 ≤ major ∧ major ≤ 4) ∧ minor = 2)
+  · rw [if_pos c2] at h; cases h
+  rw [if_neg c2] at h
+  by_cases c3 : L < sdInfoMin ∨ pkgLen < sdPkgMin
+  · rw [if_pos c3] at h; cases h
+  rw [if_neg c3] at h
+  by_cases c4 : ¬ sliceOK sdHsLo sdHsHi L = true
+  · exact c4 (by clear h; sd_consts; omega)
+  rw [if_neg c4] at h
+  by_cases c5 : hs < sdHdrMin ∨ hs > L - sdHdrBase
+  · rw [if_pos c5] at h; cases h
+  rw [if_neg c5] at h
+  by_cases c6 : ¬ sliceOK sdBlockLo (sdBlockLo2 + hs) L = true
+  · exact c6 (by clear h; sd_consts; omega)
+  rw [if_neg c6] at h
+  by_cases c7 : ¬ (sliceOK sdAlgLo sdAlgHi hs = true ∧ sliceOK sdKeyLo sdKeyHi hs = true ∧ sliceOK sdResLo sdResHi hs = true ∧ sliceOK sdCspLo hs hs = true)
+  · exact c7 (by clear h; sd_consts; omega)
+  rw [if_neg c7] at h
+  by_cases c8 : ¬ sliceOK (sdRestLo + hs) L L = true
+  · exact c8 (by clear h; sd_consts; omega)
+  rw [if_neg c8] at h
+  by_cases c9 : L - (sdRestLo + hs) < verifierMin (algOf algId)
+  · rw [if_pos c9] at h; cases h
+  rw [if_neg c9] at h
+  by_cases c10 : ¬ verifierSlicesOK (algOf algId) (L - (sdRestLo + hs)) = true
+  · exact c10 (verifierSlices_of_min _ _ (by omega))
+  rw [if_neg c10] at h
+  by_cases c11 : keyBits / 8 > 40
+  · rw [if_pos c11] at h; cases h
+  rw [if_neg c11] at h
+  by_cases c12 : ¬ sliceOK decOffset pkgLen pkgLen = true
+  · exact c12 (by clear h; sd_consts; omega)
+  rw [if_neg c12] at h
+  by_cases c13 : ¬ (keyBits / 8 = 16 ∨ keyBits / 8 = 24 ∨ keyBits / 8 = 32)
+  · rw [if_pos c13] at h; cases h
+  rw [if_neg c13] at h
+  by_cases c14 : (pkgLen - decOffset) % decBlock ≠ 0
+  · rw [if_pos c14] at h; cases h
+  rw [if_neg c14] at h
+  cases h
+
+theorem standardGuards_no_panic (info : List Nat) (pkgLen : Nat) : standardGuards info pkgLen ≠ .panic := by
+  unfold standardGuards
+  split
+  · intro h; cases h
+  · exact guardsCore_no_panic _ _ _ _ _ _ _
 
 /-! ### UTF-16LE -/
 
